@@ -172,7 +172,8 @@ def install_observers():
 
     orig = vr._parse_cue_text
     def parse_cue_text(cue_text, paragraph, line_number):
-        rec = dict(attached=(paragraph is not None and paragraph.parent() is not None), p_none=paragraph is None, ev=[], end="open")
+        rec = dict(attached=(paragraph is not None and paragraph.parent() is not None), p_none=paragraph is None, ev=[], end="open",
+                   text=cue_text)         # the cue text as the reader hands it over: input of the C11 model of this parser (guards18.cue_text_predictions)
         if TRACE is not None: TRACE.append(rec)
         parser = vr._TextCueParser(paragraph, line_number)
         try:
@@ -226,6 +227,97 @@ def _imsc_config(c):
     if "fps" in c: kw["fps"] = Fraction(*c["fps"])
     return IMSCWriterConfiguration(**kw)
 
+# ------------------------------------------------------------------------------------------ predicates on the input of the recorded findings
+LWSP = " \t\r\n"
+
+def ruby_child_prunable(doc):
+    """finding ruby-inactive-annotation, evaluated on the document the reader returned: some child of a Ruby or Rtc element can be left
+    out of a snapshot -- it (or everything it holds) has a begin or an end, an animation step, a region of its own or tts:display none, holds
+    only white space, or is childless (a childless element is pruned when its region is not the selected one); or the ruby element is in no
+    region while the document has regions (then the text of its children is pruned in every snapshot).  A necessary condition
+    of the failure, not the failure itself: a ruby element all of whose children are unconditional never loses a child.
+    Iterative (documents of the depth stream nest thousands of elements)."""
+    import ttconv.model as M, ttconv.style_properties as S
+    body = doc.get_body()
+    if body is None: return False
+    def cond(e):
+        if e.get_begin() is not None or e.get_end() is not None or e.get_region() is not None: return True
+        if next(iter(e.iter_animation_steps()), None) is not None: return True
+        return e.get_style(S.StyleProperties.Display) is S.DisplayType.none
+    memo = {}
+    def prunable(root):
+        stack = [(root, False)]
+        while stack:
+            e, done = stack.pop()
+            if id(e) in memo: continue
+            if isinstance(e, M.Text): memo[id(e)] = all(c in LWSP for c in e.get_text()); continue
+            if isinstance(e, M.Br): memo[id(e)] = False; continue
+            if cond(e): memo[id(e)] = True; continue
+            kids = list(e)
+            if isinstance(e, (M.Rb, M.Rbc)): memo[id(e)] = not kids; continue
+            if done: memo[id(e)] = all(memo[id(k)] for k in kids)
+            else:
+                stack.append((e, True)); stack.extend((k, False) for k in kids)
+        return memo[id(root)]
+    has_regions = next(iter(doc.iter_regions()), None) is not None
+    todo = [(body, body.get_region())]
+    while todo:
+        e, region = todo.pop()
+        if isinstance(e, M.Text): continue
+        kids = list(e)
+        if isinstance(e, (M.Ruby, M.Rtc)):
+            if any(prunable(k) for k in kids): return True
+            # content that is in no region at all: every snapshot of a region prunes its childless descendants (the text), hence its rt
+            if has_regions and region is None: return True
+        todo.extend((k, k.get_region() if not isinstance(k, M.Text) and k.get_region() is not None else region) for k in kids)
+    return False
+
+def clock_ms(t):
+    """the millisecond ClockTime.from_seconds(t) holds: round(t, 3) is exact round-half-even on a Fraction"""
+    return round(Fraction(t) * 1000)
+
+def clock_float(ms):
+    """ClockTime.to_seconds(): hours * 3600 + minutes * 60 + seconds (an exact int) + milliseconds / 1000.0"""
+    return (ms // 1000) + (ms % 1000) / 1000.0
+
+def same_millisecond(sig):
+    """finding cue-shorter-than-a-millisecond, evaluated on the significant times of the document that is written: two neighbours a < b
+    whose time codes do not compare as begin < end -- 'ms': they round to the same millisecond; 'float': the milliseconds differ but
+    to_seconds() returns the same float (times beyond 2^53 ms).  None: every interval keeps begin < end."""
+    kind = None
+    for a, b in zip(sig, sig[1:]):
+        ma, mb = clock_ms(a), clock_ms(b)
+        if ma >= mb: return "ms"
+        try:
+            if clock_float(ma) >= clock_float(mb): kind = "float"
+        except OverflowError:
+            pass                          # that is finding writer-time-overflow
+    return kind
+
+def time_beyond_float(sig, doc):
+    """finding writer-time-overflow: a time of the document is so large that a writer's conversion to float (of the time itself, of the time
+    in frames, hours or milliseconds) overflows.  Necessary condition evaluated on the input: the largest significant time is above
+    1e290 s (float max is 1.8e308; the writers multiply by at most the frame rate x 1000)."""
+    return bool(sig) and max(sig) > 10 ** 290
+
+def time_digits_beyond_int_str(sig):
+    """finding writer-time-int-digits: a time so large that its frame count has more decimal digits than str(int) converts (4300 by default).
+    Necessary condition on the input: the largest significant time has more than 14000 bits (about 4214 digits; the frame rates of the writer
+    configurations and the factor 3600 add fewer than 10 digits)."""
+    return bool(sig) and int(max(sig)).bit_length() > 14000
+
+def input_predicates(doc, sig):
+    """-> dict stamped on every downstream failure of this document (harness/c18.py FINDINGS consults it)"""
+    out = {}
+    for name, f in (("ruby_prunable", lambda: ruby_child_prunable(doc)), ("same_ms", lambda: same_millisecond(list(sig)) if sig is not None else None),
+                    ("big_time", lambda: time_beyond_float(list(sig), doc) if sig is not None else None),
+                    ("huge_time", lambda: time_digits_beyond_int_str(list(sig)) if sig is not None else None)):
+        try: out[name] = f()
+        except InputTimeout: raise
+        except BaseException as e: out[name] = f"predicate failed: {type(e).__name__}: {e}"[:120]   # fails closed: a string is not a recognised value
+    return out
+
+
 def probe_times(sig, rnd, cap=14):
     """the significant times, the midpoints between neighbours, one time before the first and one after the last"""
     ts = list(sig)
@@ -245,17 +337,21 @@ def pipeline(doc, reread, rnd, fails, stats, full=False):
     from ttconv.vtt.config import VTTWriterConfiguration
     from ttconv.filters.doc.lcd import LCDDocFilter
 
+    ctx = dict(pred={})                 # predicates on the document the current stage works on (the read one, or the LCD-filtered one)
     def stage(name, f):
         try:
             return True, f()
         except InputTimeout:
             raise
         except BaseException as e:      # noqa: any exception downstream of a returned document is a failure
-            d = describe(e); d["stage"] = name; fails.append(d); return False, None
+            d = describe(e); d["stage"] = name; d["pred"] = ctx["pred"]; fails.append(d); return False, None
 
+    ctx["pred"] = input_predicates(doc, None)
     ok, sig = stage("sig_times", lambda: ISD.significant_times(doc))
     times = probe_times(sig, rnd) if ok else [Fraction(0), Fraction(1), Fraction(5, 2)]
     stats["sig"] = len(sig) if ok else -1
+    ctx["pred"] = input_predicates(doc, sig if ok else None)
+    stats["pred"] = {k: v for k, v in ctx["pred"].items() if v}
     seen = set()
     for t in times:
         try:
@@ -263,7 +359,7 @@ def pipeline(doc, reread, rnd, fails, stats, full=False):
         except InputTimeout:
             raise
         except BaseException as e:
-            d = describe(e); d["stage"] = "isd"; d["t"] = str(t)
+            d = describe(e); d["stage"] = "isd"; d["t"] = str(t); d["pred"] = ctx["pred"]
             if (d["type"], d["site"]) not in seen:
                 seen.add((d["type"], d["site"])); fails.append(d)
     stats["snapshots"] = len(times)
@@ -287,10 +383,15 @@ def pipeline(doc, reread, rnd, fails, stats, full=False):
     for c in lcds:
         ok, d2 = stage("reread", reread)
         if not ok or d2 is None: continue
+        ctx["pred"] = input_predicates(d2, None)
         ok, _ = stage(f"lcd{c}", lambda: LCDDocFilter(_lcd_config(c)).process(d2))
         if not ok: continue
+        ctx["pred"] = input_predicates(d2, None)          # the filtered document
+        ok, sig2 = stage(f"lcd{c}>isd", lambda: ISD.significant_times(d2))
+        if not ok: continue
+        ctx["pred"] = input_predicates(d2, sig2)
         def snaps():
-            for t in probe_times(ISD.significant_times(d2), rnd, 6): ISD.from_model(d2, t)
+            for t in probe_times(sig2, rnd, 6): ISD.from_model(d2, t)
         stage(f"lcd{c}>isd", snaps)
         if full: writers(d2, f"lcd{c}>", SRT_W[:1], VTT_W[:1] + VTT_W[-1:], IMSC_W[:1])
         else:
